@@ -30,6 +30,9 @@ objs=[f*v*dx(4) + f*v*ds(2) + v*ds(1) + v*dP(3) + f*v*dx(1)]'''),
     corpus._c("c06_same_id_two_degrees", '''
 m=mesh("triangle"); V=space(m,"P",2); v=TestFunction(V); f=Coefficient(V)
 objs=[f*v*dx(1,degree=1) + f*f*v*dx(1,degree=4) + v*dx(3) + v*ds]'''),
+    corpus._c("c06_same_id_in_two_groups", '''
+m=mesh("triangle"); V=space(m,"P",2); f=Coefficient(V); g=Coefficient(V); x=SpatialCoordinate(m)
+objs=[f*dx((1,2), degree=1) + g*g*dx(1, degree=3), x[0]*dx((0,2), degree=1) + x[1]*x[1]*dx((2,5), degree=2) + x[0]*x[1]*dx(degree=2)]'''),
     corpus._c("c06_several_forms", '''
 m=mesh("tetrahedron"); V=space(m,"P",1); u,v=TrialFunction(V),TestFunction(V); f=Coefficient(V); c=Constant(m,shape=(3,)); k=Constant(m)
 objs=[inner(grad(u),grad(v))*dx(1)+u*v*ds(2), k*f*v*dx + dot(c,grad(f))*v*ds(5), f*f*dx(2)+f*dS]'''),
@@ -51,12 +54,13 @@ def expected_ids(form):
     return {t: sorted(v) for t, v in out.items()}
 
 
-def random_ir(rng):
+def random_ir(rng, duplicates=False):
     ir = SimpleNamespace(subdomain_ids={}, integral_names={}, integral_domains={})
     n = 0
     for t in ITYPES:
         k = rng.choice([0, 0, 1, 2, 3, 4])
-        ids = rng.sample([-1, 0, 1, 2, 3, 5, 8, 13], k)
+        # the same id may be listed by several integral groups (tuple ids with different metadata)
+        ids = [rng.choice([-1, 0, 1, 2, 3, 5]) for _ in range(k)] if duplicates else rng.sample([-1, 0, 1, 2, 3, 5, 8, 13], k)
         ir.subdomain_ids[t] = ids
         ir.integral_names[t] = [f"n{n + i}" for i in range(k)]
         ir.integral_domains[t] = [[rng.choice([1, 2, 3])] if rng.random() < 0.6 else [2, 3] for _ in range(k)]
@@ -70,8 +74,33 @@ def run(v, tier, seed, g):
     # ---- model vs real integral_data, and real integral_data vs its specification --------------
     N = 300 if tier == "quick" else 5000
     irs = [random_ir(rng) for _ in range(N)]
+    dup_irs = [random_ir(rng, duplicates=True) for _ in range(N)]
     rows = []
     spec_bad = 0
+    for ir in dup_irs:
+        # with repeated ids: the same entries as a multiset, ids non-decreasing within each type, offsets = kernel counts
+        real = integral_data(ir)
+        exp_off = [0]
+        for t in ITYPES:
+            exp_off.append(exp_off[-1] + sum(len(d) for d in ir.integral_domains[t]))
+        exp_entries = []
+        for t in ITYPES:
+            exp_entries += sorted(zip(ir.subdomain_ids[t], ir.integral_names[t], [list(d) for d in ir.integral_domains[t]]))
+        real_entries = list(zip(real.ids, real.names, [list(d) for d in real.domains]))
+        pos, mono = 0, True
+        for t in ITYPES:
+            k = len(ir.subdomain_ids[t])
+            seg = list(real.ids[pos:pos + k])
+            mono = mono and seg == sorted(seg)
+            pos += k
+        ok = list(real.offsets) == exp_off and sorted(real_entries) == sorted(exp_entries) and mono and len(real_entries) == len(exp_entries)
+        v.oblige(ok)
+        if not ok:
+            spec_bad += 1
+            if spec_bad <= 2:
+                v.violation("integral_data-duplicates", "integral_data loses or misplaces entries when a subdomain id is listed by several integral groups of one type",
+                            {"subdomain_ids": ir.subdomain_ids, "integral_names": ir.integral_names, "integral_domains": ir.integral_domains,
+                             "observed_offsets": list(real.offsets), "expected_offsets": exp_off, "observed_entries": str(real_entries), "expected_entries": str(exp_entries)})
     for ir in irs:
         real = integral_data(ir)
         # specification, written independently: groups in ufcx order, sorted by id, offsets = kernel counts
